@@ -6,6 +6,7 @@
    code.  uint32 / int32 conversions of the cursor arithmetic are written explicitly.
    Definitions only; proofs are in ProofsSeq.v / ProofsDrain.v. *)
 From Coq Require Export List ZArith Lia Bool.
+From MV Require C20.Model.
 Export ListNotations.
 Local Open Scope Z_scope.
 
@@ -49,6 +50,27 @@ Definition set_hdr (m : list Z) (l nb nc : Z) : list Z :=
 
 (* MUGGLE_SHM_RINGBUF_CAL_BYTES_CACHELINE: ROUND_UP(sizeof(hdr)+n, 64)/64 + 2 (size_t arithmetic) *)
 Definition cal_cachelines (nb : Z) : Z := (HDR + nb + (CL - 1)) / CL + 2.
+
+(* ---- muggle_shm_ringbuf_open: the size computation (uint32 arithmetic as coded) ----
+   sizeof(muggle_shm_ringbuf_t), the 4K page of MUGGLE_SHM_ALIGN_4K_PAGE and the magic word; Properties_C08.v
+   checks RHDR against the value re-extracted from the headers *)
+Definition RHDR : Z := 960.
+Definition PAGE : Z := 4096.
+Definition MAGIC : Z := 1297303629.
+(* MUGGLE_ROUND_UP_POW_OF_2_MUL(x, m) = ((x)+(m)-1) & ~((m)-1) with x a uint32 and m an int constant *)
+Definition round_up32 (x m : Z) : Z := Z.land (u32 (x + m - 1)) (u32 (- m)).
+(* muggle_next_pow_of_2 (uint64): the model of C20 (tied to the C text there by gen_npo2_eq) *)
+Definition npo2 (x : Z) : Z := Z.of_N (MV.C20.Model.model_npo2 (Z.to_N x)).
+(* (n_cacheline, data_bytes = the ring's n_bytes, total_bytes = the size asked from muggle_shm_open) *)
+Definition open_sizes (nbytes : Z) : Z * Z * Z :=
+  if nbytes =? 0 then (0, 0, 0)
+  else
+    let data0 := round_up32 nbytes CL in
+    let n0 := data0 / CL in
+    let n := u32 (npo2 n0) in
+    let data := u32 (n * CL) in
+    let total0 := u32 (RHDR + data) in
+    (n, data, round_up32 total0 PAGE).
 
 (* muggle_shm_ringbuf_open with MUGGLE_SHM_FLAG_CREAT (the fields the operations use); the data
    area is filled with 0xAB by the drivers so that stale bytes are deterministic *)
@@ -119,24 +141,37 @@ Definition user_write (s : ring) (off : Z) (d : list Z) : ring :=
   {| n_cl := n_cl s; wcur := wcur s; rcur := rcur s; crem := crem s; w_hdr := w_hdr s;
      r_hdr := r_hdr s; mem := blit (mem s) off d |}.
 
-(* ---- usage protocol shared by both drivers (DESIGN.md Appendix B): message length >= 1;
-   write / commit only with an outstanding successful allocation, inside its region;
+(* ---- usage protocol shared by both drivers (DESIGN.md Appendix B): message length 0 .. 2^31 - 1 (length 0 is
+   executed as the code executes it: its header is indistinguishable from the wrap marker; the property speaks
+   of lengths >= 1 and its theorems carry that hypothesis, [sized] below);
+   an explicit footprint (w_alloc_cachelines) holds the message (>= CAL_BYTES_CACHELINE(n_bytes), any slack) and is
+   < 2^31; write / commit only with an outstanding successful allocation, inside its region;
    r_move only after a successful fetch.  Operations outside the protocol are skipped by
    both drivers (RSkip), so [run] is total over every op list. ---- *)
 Record harness := { hr : ring; h_alloc : option (Z * Z) (* offset, nbytes *); h_fetched : bool }.
 
 Inductive op :=
-  | OAlloc (nb : Z) | OWrite (at_ : Z) (d : list Z) | OCommit | OFetch | ORMove.
+  | OAlloc (nb : Z)            (* muggle_shm_ringbuf_w_alloc_bytes *)
+  | OAllocCl (nb nc : Z)       (* muggle_shm_ringbuf_w_alloc_cachelines: footprint nc >= the lines nb needs *)
+  | OWrite (at_ : Z) (d : list Z) | OCommit | OFetch | ORMove.
 Inductive res :=
   | RAlloc (o : option Z) | RSkip | RDone | RFetch (o : option (Z * Z * list Z)).
 
 Definition hinit (n : Z) : harness := {| hr := init n; h_alloc := None; h_fetched := false |}.
+(* the ring as muggle_shm_ringbuf_open creates it for a request of nbytes *)
+Definition hopen (nbytes : Z) : harness := hinit (fst (fst (open_sizes nbytes))).
 
 Definition step (h : harness) (o : op) : harness * res :=
   match o with
   | OAlloc nb =>
-    if (1 <=? nb) && (nb <? 2147483648) then
+    if (0 <=? nb) && (nb <? 2147483648) then
       let (s', r) := w_alloc_bytes (hr h) nb in
+      ({| hr := s'; h_alloc := match r with Some off => Some (off, nb) | None => h_alloc h end;
+          h_fetched := h_fetched h |}, RAlloc r)
+    else (h, RSkip)
+  | OAllocCl nb nc =>
+    if (0 <=? nb) && (nb <? 2147483648) && (cal_cachelines nb <=? nc) && (nc <? 2147483648) then
+      let (s', r) := w_alloc_cachelines (hr h) nb nc in
       ({| hr := s'; h_alloc := match r with Some off => Some (off, nb) | None => h_alloc h end;
           h_fetched := h_fetched h |}, RAlloc r)
     else (h, RSkip)
@@ -165,6 +200,11 @@ Definition step (h : harness) (o : op) : harness * res :=
       ({| hr := r_move (hr h); h_alloc := h_alloc h; h_fetched := false |}, RDone)
     else (h, RSkip)
   end.
+
+(* the property's size hypothesis: every allocation asks for at least 1 byte *)
+Definition sized_op (o : op) : Prop :=
+  match o with OAlloc nb => 1 <= nb | OAllocCl nb _ => 1 <= nb | _ => True end.
+Definition sized (ops : list op) : Prop := Forall sized_op ops.
 
 Fixpoint run (h : harness) (ops : list op) : harness * list res :=
   match ops with
